@@ -26,6 +26,29 @@ CHECKS = {
         "gymnasium's contains/flatten are trusted; reachable counts are limited by what the generated histories produce "
         "(the component layer adds synthetic states).",
     ),
+    "C05": (
+        "PBT over request paths x path mutations x action-formed requests at generated states; observe-only tracer of "
+        "RequestManager return points; whole-state before/after differential",
+        "At states reached by generated action prefixes, every probe (a live request path with templated arguments, a "
+        "mutation of it by a missing/misspelt/other-kind element or a cut, or a request formed by an action class) is applied "
+        "through Simulation.apply_request; the tracer classifies the return point (key-miss / validator refusal / leaf); "
+        "the oracle requires a documented status and no exception, unreachable for key-miss, failure+reason for a "
+        "validator refusal, an unchanged normalised describe_state() for everything stopped before a leaf, and no "
+        "key-miss for action requests whose parameters name existing components. Exploration.",
+        "describe_state() is taken as the observable state; leaf argument arity is kept valid (unknown leaf templates are "
+        "counted, not reported); validators are evaluated a second time by the tracer and assumed pure.",
+    ),
+    "C11": (
+        "PBT over masking scenarios x histories through transitional states: mask vs independent dry-run over the live "
+        "request tree for every action-map entry; executed entry vs traced return point",
+        "Before every step and after every reset, env.action_masks() is compared entry by entry with a harness walk of the "
+        "formed request over the live request tree (all keys exist and every validator on the path accepts, evaluated "
+        "without check_valid); for the executed action the mask taken at the moment the request is applied is compared "
+        "with the traced return point and the response status (masked => not success; allowed => not stopped by a "
+        "key-miss or validator). Exploration.",
+        "Validator objects are the definition of 'permission rule' (a mutant that weakens a validator itself is C12/C13's "
+        "business); blue's mask is re-read inside apply_agent_actions via a class-level wrapper.",
+    ),
     "C15": (
         "stateful PBT: generated file-system request/action sequences vs structural invariants + name model; "
         "bounded-exhaustive over a 14-symbol alphabet",
